@@ -154,6 +154,75 @@ func hWireEnc(o Op) (out map[string]interface{}) {
 		out["vt_vt"] = err == nil && a.Unmarshal(vt) == nil && a.EqualVT(p)
 		out["gen_vt"] = gerr == nil && b.Unmarshal(gen) == nil && b.EqualVT(p)
 	}
+	// the other entry points of the generated API must produce the same bytes: MarshalTo / MarshalToVT write at the START of a
+	// buffer that may be larger than needed, MarshalToSizedBufferVT at its END; nothing beyond the encoding is touched; a clone is equal
+	if err == nil {
+		apiOK := true
+		apiWhy := ""
+		type mt interface {
+			MarshalToVT([]byte) (int, error)
+			MarshalToSizedBufferVT([]byte) (int, error)
+			MarshalVT() ([]byte, error)
+		}
+		m := msg.(mt)
+		// (map entries are written in Go's map iteration order, also by the Strict variants: an output that differs from vt is compared by decoding it)
+		sameValue := func(enc []byte) bool {
+			switch v := msg.(type) {
+			case *types.Stat:
+				var d types.Stat
+				return d.UnmarshalVT(enc) == nil && d.EqualVT(v)
+			case *types.Packet:
+				var d types.Packet
+				return d.UnmarshalVT(enc) == nil && d.EqualVT(v)
+			}
+			return false
+		}
+		if b2, e := m.MarshalVT(); e != nil || len(b2) != len(vt) || !sameValue(b2) {
+			apiOK, apiWhy = false, "MarshalVT does not encode the value"
+		}
+		for _, slack := range []int{0, 1, 7, 4096} {
+			check := func(name string, f func([]byte) (int, error), atEnd bool) {
+				buf := bytes.Repeat([]byte{0xAA}, len(vt)+slack)
+				n, e := f(buf)
+				if e != nil || n != len(vt) {
+					apiOK, apiWhy = false, fmt.Sprintf("%s(slack %d): n=%d err=%v, want n=%d", name, slack, n, e, len(vt))
+					return
+				}
+				enc, rest := buf[:n], buf[n:]
+				if atEnd {
+					enc, rest = buf[len(buf)-n:], buf[:len(buf)-n]
+				}
+				if !bytes.Equal(enc, vt) && !sameValue(enc) {
+					apiOK, apiWhy = false, fmt.Sprintf("%s(slack %d): encoding is not where the contract puts it", name, slack)
+				}
+				for _, c := range rest {
+					if c != 0xAA {
+						apiOK, apiWhy = false, fmt.Sprintf("%s(slack %d): bytes outside the encoding were written", name, slack)
+						break
+					}
+				}
+			}
+			check("MarshalToVT", m.MarshalToVT, false)
+			check("MarshalToSizedBufferVT", m.MarshalToSizedBufferVT, true)
+			if p, ok := msg.(*types.Packet); ok {
+				check("Packet.MarshalTo", p.MarshalTo, false)
+			}
+		}
+		switch v := msg.(type) {
+		case *types.Stat:
+			if c := v.CloneVT(); !c.EqualVT(v) || !v.Clone().EqualVT(v) {
+				apiOK, apiWhy = false, "clone differs"
+			}
+		case *types.Packet:
+			if c := v.CloneVT(); !c.EqualVT(v) {
+				apiOK, apiWhy = false, "clone differs"
+			}
+		}
+		out["api_ok"] = apiOK
+		if !apiOK {
+			out["api_why"] = apiWhy
+		}
+	}
 	out["ok"] = err == nil
 	out["gok"] = gerr == nil
 	if gerr != nil {
